@@ -1,7 +1,8 @@
 (* Props/C13.v — the property theorems of C13, and nothing else.
    Model of the class: Arglist/Model.v + Ops.v (run_ops); its eager meaning on a plain
    list: Arglist/Eager.v (eager_iadd, erun).  cd = _can_dedup, sp = _should_prepend. *)
-From MV Require Import Base.Strs Arglist.Model Arglist.Tables Arglist.Ops Arglist.Eager Arglist.Proofs.
+From MV Require Import Base.Strs Arglist.Model Arglist.Tables Arglist.Ops Arglist.Eager Arglist.Proofs
+  Arglist.ToNative Arglist.Backend Arglist.Seq.
 
 (* "However a compile or link command line is assembled - ... added in any number of
    increments, with reads and copies in between - the result equals the simple eager
@@ -135,6 +136,83 @@ Theorem C13_to_native_strip_only_removes : forall (dd l : list str), subseq (fst
 Proof. exact strip_default_only_removes. Qed.
 Print Assumptions C13_to_native_strip_only_removes.
 
+(* to_native, default include dirs (clike.py:102-120), EXACTLY: with default dirs dd the index
+   machinery never raises and returns Eager.strip_spec: an element is dropped iff it is
+   -isystem<dir> / -isystem=<dir> of a default directory, a bare -isystem whose operand is
+   one, or that operand; every other element stays, in order *)
+Theorem C13_to_native_strip_exact : forall (dd l : list str),
+  strip_default dd l = (match dd with [] => l | _ => strip_spec (map realpath dd) l false end, true).
+Proof. exact strip_default_exact. Qed.
+Print Assumptions C13_to_native_strip_exact.
+Theorem C13_to_native_never_raises : forall clike gnu dd l, snd (tn_list clike gnu dd l) = true.
+Proof. exact tn_list_total. Qed.
+Print Assumptions C13_to_native_never_raises.
+Theorem C13_strip_leaves_non_isystem : forall rd l,
+  (forall e, In e l -> prefixb isystem e = false) -> strip_spec rd l false = l.
+Proof. exact strip_spec_no_isystem. Qed.
+Print Assumptions C13_strip_leaves_non_isystem.
+Theorem C13_strip_joined_form : forall rd x p r, x <> 61%N ->
+  strip_spec rd ((isystem ++ x :: p) :: r) false =
+  if str_mem (realpath (x :: p)) rd then strip_spec rd r false else (isystem ++ x :: p) :: strip_spec rd r false.
+Proof. exact strip_spec_joined. Qed.
+Print Assumptions C13_strip_joined_form.
+Theorem C13_strip_bare_form : forall rd d r, prefixb isystem d = false ->
+  strip_spec rd (isystem :: d :: r) false =
+  if str_mem (realpath d) rd then strip_spec rd r false else isystem :: d :: strip_spec rd r false.
+Proof. exact strip_spec_bare. Qed.
+Print Assumptions C13_strip_bare_form.
+
+(* the clauses over ANY NUMBER of increments (x = C(l); x += b1; ...; x += bn; list(x)) *)
+Theorem C13_increments_lazy_is_eager : forall K l bs,
+  run_ops K (init l) (map OIadd bs) = repeat ONone (length bs) ++ [OList (eager_iadds (c_cd K) (c_sp K) l bs)].
+Proof. exact lazy_iadds. Qed.
+Print Assumptions C13_increments_lazy_is_eager.
+Theorem C13_increments_nothing_lost_or_invented : forall cd sp x bs l,
+  In x (eager_iadds cd sp l bs) <-> In x l \/ exists b, In b bs /\ In x b.
+Proof. exact iadds_In. Qed.
+Print Assumptions C13_increments_nothing_lost_or_invented.
+Theorem C13_increments_nodedup_order : forall cd sp bs,
+  (forall a, is_nodedup cd a = true -> sp a = false) -> forall l,
+  filter (is_nodedup cd) (eager_iadds cd sp l bs) = filter (is_nodedup cd) l ++ flat_map (filter (is_nodedup cd)) bs.
+Proof. exact iadds_nodedup_order. Qed.
+Print Assumptions C13_increments_nodedup_order.
+(* "for duplicated settings the later-added one takes effect": after any earlier increments, an
+   override-type appended y added by some increment and by no later one survives once, and
+   behind it stand only appended arguments added after it *)
+Theorem C13_later_added_takes_effect_append : forall cd sp l before b1 y b2 later,
+  sp y = false -> is_ov cd y = true -> ~ In y b2 -> (forall b, In b later -> ~ In y b) ->
+  exists X S, eager_iadds cd sp l (before ++ (b1 ++ y :: b2) :: later) = X ++ y :: S
+    /\ ~ In y X /\ ~ In y S
+    /\ (forall x, In x S -> sp x = false /\ (In x b2 \/ exists b, In b later /\ In x b)).
+Proof. exact later_added_takes_effect_append. Qed.
+Print Assumptions C13_later_added_takes_effect_append.
+(* ... and a prepended y (-I/-L): in front of it stand only prepended arguments listed before
+   it in its batch or added by a later increment *)
+Theorem C13_later_added_takes_effect_prepend : forall cd sp l before b1 y b2 later,
+  sp y = true -> is_ov cd y = true -> ~ In y b1 -> (forall b, In b later -> ~ In y b) ->
+  exists X S, eager_iadds cd sp l (before ++ (b1 ++ y :: b2) :: later) = X ++ y :: S
+    /\ ~ In y X /\ ~ In y S
+    /\ (forall x, In x X -> sp x = true /\ (In x b1 \/ exists b, In b later /\ In x b)).
+Proof. exact later_added_takes_effect_prepend. Qed.
+Print Assumptions C13_later_added_takes_effect_prepend.
+
+(* the order in which the Ninja backend adds the sources (Arglist/Backend.v: target_increments,
+   transcribed from backends.py:1023-1134 and ninjabackend.py:3134-3222): what the lazy class
+   returns for it is the eager meaning ... *)
+Theorem C13_backend_lazy_equals_eager : forall cd sp T, compile_args_lazy cd sp T = compile_args cd sp T.
+Proof. exact compile_args_lazy_eager. Qed.
+Print Assumptions C13_backend_lazy_equals_eager.
+(* ... and a -D/-U of the per-target c_args takes effect over every option, project, global,
+   environment, dependency and include source *)
+Theorem C13_backend_target_args_take_effect : forall cd sp T b1 y b2,
+  sp y = false -> is_ov cd y = true -> t_targs T = b1 ++ y :: b2 -> ~ In y b2 ->
+  ~ In y (t_srcinc T) -> ~ In y (t_bldinc T) -> ~ In y (t_privinc T) ->
+  exists X S, compile_args cd sp T = X ++ y :: S /\ ~ In y X /\ ~ In y S
+              /\ (forall x, In x S -> sp x = false /\
+                    (In x b2 \/ In x (t_srcinc T) \/ In x (t_bldinc T) \/ In x (t_privinc T))).
+Proof. exact target_args_take_effect. Qed.
+Print Assumptions C13_backend_target_args_take_effect.
+
 (* ---- the code as shipped in b8a063f, before pending/C13-*.diff -------------------------
    _should_prepend as shipped moves the bare word "-I"/"-L" to the front, away from its
    operand: the order clause is false for it ... *)
@@ -170,3 +248,16 @@ Theorem C13_eq_other_unflushed_partial : forall l b0,
   eq_other_unflushed clike_cfg (init l) b0 [] = str_list_eqb l (eager_iadd clike_cd clike_sp b0 []).
 Proof. exact eq_other_unflushed_partial. Qed.
 Print Assumptions C13_eq_other_unflushed_partial.
+(* the stripping loop as shipped (reversed(bad_idx_list), an index can be listed twice) loses an
+   argument / raises IndexError ... *)
+Theorem C13_strip_shipped_refuted :
+  ((exists dd l, fst (strip_default_shipped dd l) <> strip_spec (map realpath dd) l false) /\
+   (exists dd l, snd (strip_default_shipped dd l) = false))%type.
+Proof. exact strip_shipped_refuted. Qed.
+Print Assumptions C13_strip_shipped_refuted.
+(* ... and is right whenever the index list is already strictly increasing *)
+Theorem C13_strip_shipped_partial : forall dd l,
+  nat_list_eqb (rev (bad_idx (map realpath dd) l 0)) (sorted_set_desc (bad_idx (map realpath dd) l 0)) = true ->
+  strip_default_shipped dd l = strip_default dd l.
+Proof. exact strip_shipped_partial. Qed.
+Print Assumptions C13_strip_shipped_partial.
